@@ -17,6 +17,7 @@ RULE = ('Hypothesis synthetic survey trees written per case with astropy: 1-4 pl
         'float dtypes: both blocks present at the documented offsets, zeros elsewhere.  Non-trivial = >= 2 plate-MJD groups with different '
         'pixel counts, requests not sorted by group, >= 1 repeated plate.')
 RULE += '  Also: run2d=/run1d= keywords with an environment lacking RUN2D/RUN1D, vector-valued table columns, empty blocks (0, n) / (m, 0) for spec_append.'
+RULE += ' Round 5: reduction tags v5_7_0 / trunk / master / DR12x / 26 in two survey trees; run2d= keyword against a decoy $RUN2D; plates up to 15999.'
 ASSUMPTIONS = ['explicit-request calling conventions only: vectors, scalar plate + fibres, scalars, MJD omitted (the all-fibres mode is not a request vector and currently cannot run, see DESIGN.md O9); the topdir= keyword is not used; run2d=/run1d= keywords are used together with path= and an environment without RUN2D/RUN1D',
                'spZbest (and photoPlate when written) exists for every plate-MJD of a tree',
                'files are written by the harness with astropy.io.fits in the spPlate HDU layout (0 flux, 1 invvar, 2 andmask, 3 ormask, 4 disp, 5 plugmap, 6 sky)']
